@@ -789,3 +789,28 @@ benign("C12","gauge-decoded-in-helper",[
 
 func (k Keeper) IterateGauges("""),
 ])
+
+# ---- C16/R8 year arithmetic (genuine defect fixed in /repo)
+m("C16","year-overflow-guard-removed","x/rns/keeper/msg_server_register.go",
+  """	if years > 0 && (cost > math.MaxInt64/years || years > (math.MaxInt64-latest)/5484530) {
+		return sdkerrors.Wrapf(sdkerrors.ErrInvalidRequest, "cannot register a name for %d years", years)
+	}
+""","""	_ = math.MaxInt64
+""","C16/R8","year-arithmetic-cannot-wrap:price","inverse of the year-count fix")
+m("C16","year-overflow-guard-by-sign-of-product","x/rns/keeper/msg_server_register.go",
+  """	if years > 0 && (cost > math.MaxInt64/years || years > (math.MaxInt64-latest)/5484530) {""",
+  """	if years > 0 && (cost*years < 0 || years > (math.MaxInt64-latest)/5484530) {""","C16/R8","year-arithmetic-cannot-wrap:price")
+m("C16","year-overflow-guard-ignores-base","x/rns/keeper/msg_server_register.go",
+  """years > (math.MaxInt64-latest)/5484530) {""","""years > math.MaxInt64/5484530) {""","C16/R8","year-arithmetic-cannot-wrap:expiry-from-height")
+benign("C16","year-guard-split-in-two",[
+ ("x/rns/keeper/msg_server_register.go","""	if years > 0 && (cost > math.MaxInt64/years || years > (math.MaxInt64-latest)/5484530) {
+		return sdkerrors.Wrapf(sdkerrors.ErrInvalidRequest, "cannot register a name for %d years", years)
+	}
+""","""	if years > 0 && cost > math.MaxInt64/years {
+		return sdkerrors.Wrapf(sdkerrors.ErrInvalidRequest, "cannot register a name for %d years", years)
+	}
+	if years > (math.MaxInt64-latest)/5484530 {
+		return sdkerrors.Wrapf(sdkerrors.ErrInvalidRequest, "cannot register a name for %d years", years)
+	}
+"""),
+])
